@@ -26,13 +26,26 @@ ASSUMES = [
 RULE = ("cases as C13 (exhaustive valid reconciliations of all inputs up to 3x3 leaves, all valid reconciliations of sampled 4-5 leaf inputs, "
         "random ones up to 10 object leaves), both orientations, stub sizes = integers and halves in [1,100], every numeric DrawParams field "
         "perturbed within positive dyadics; non-trivial = at least one internal species carrying a duplication or transfer branch and a loss")
-OPEN_GOALS: list = []          # filled below
+OPEN_GOALS = [
+    "finiteness of all coordinates: holds trivially in the exact-rational model; it is not a statement about IEEE-754 floats "
+    "(the correspondence converts every float with Fraction(), which rejects inf/nan, on every generated case)",
+    "idempotence of the IMPLEMENTATION (second run on the same objects, after the first wrote colour features): the model is a pure "
+    "function (C14_layout_function); the second run is compared with the first by the harness on every generated case",
+]
 TECHNIQUE = ("Coq proofs about an executable exact-rational model of layout.compute: structural induction for the mirror law between the two "
              "hand-written orientation branches, linear arithmetic over Q for containment/disjointness; model tied to the code by "
              "exhaustive-small + random correspondence (vm_compute, exact comparison through Fraction(float)); independent geometric oracle "
              "(containment, overlap, mirror by recomputation, idempotence) run on every generated case")
-LEVEL_TEXT = ""
-LEVEL_NOTE = ""
+LEVEL_TEXT = ("Machine-checked, any tree sizes: the layout of every valid reconciliation is defined (no missing key) for all parameters and sizes; (mirror) the horizontal layout is structurally "
+              "the transpose of the vertical layout of the size-swapped input, for all parameters and sizes; for non-negative parameters and node "
+              "sizes, in both orientations: the boxes of the two child species lie inside the parent's box and do not overlap; no two trunks "
+              "overlap provided every trunk lies inside its own species box, and that proviso cannot be dropped (the section-9 witness, evaluated "
+              "by the kernel); the anchors/branches of every species are keyed exactly by the anchor sets/branch dicts of the C13 model, in which "
+              "every reference of a drawn branch exists; the layout is a function of its inputs.")
+LEVEL_NOTE = ("Partial: exact rationals, not IEEE floats (tied to the code by exact comparison on dyadic inputs only); idempotence of the "
+              "implementation (second run on the same objects, after the first wrote colour features) and finiteness are checked by the harness on "
+              "every generated case, as are all geometric clauses by an independent oracle. Known finding F-TRUNK-OVERLAP: a trunk overlap in which "
+              "one trunk is outside its own box is reported as KNOWN-FINDING, never as a violation; any other failing clause is a violation.")
 
 KNOWN_ID = "F-TRUNK-OVERLAP"
 KNOWN_TAG = "TRUNK-OVERLAP-OUTSIDE-OWN-BOX"
@@ -62,11 +75,11 @@ Definition showb := (anchor * nat * r4 * (Q * Q) * (Q * Q) * (Q * Q) * (Q * Q))%
 Definition show_d (d : dbranch) : showb := (d_id d, nat_of_kind (d_kind d), show_r (d_rect d), show_p (d_parent d), show_p (d_left d), show_p (d_right d), show_p (d_child d)).
 Definition shows := (r4 * r4 * Q * list (anchor * (Q * Q)) * list showb)%type.
 Definition show_s (s : sublayout) : shows := (show_r (l_rect s), show_r (l_trunk s), Qred (l_fork s), map (fun e => (fst e, show_p (snd e))) (l_anchors s), map show_d (l_branches s)).
-Definition out14 := option (list shows).
+Definition out14 := (option (list shows) * (bool * bool))%type.   (* layout; (mirror law holds, second run identical) *)
 Definition mkP (a b c d e : Q) : params := {| pad := a; gsp := b; ovh := c; mss := d; lsp := e |}.
 Definition run14 (x : bool * params * stree * rtree * list (Q * Q)) : out14 :=
   let '(o, P, St, r, sizes) := x in
-  option_map (fun t => map show_s (flatten t)) (layout (if o then Horizontal else Vertical) P St r sizes).
+  (option_map (fun t => map show_s (flatten t)) (layout (if o then Horizontal else Vertical) P St r sizes), (true, true)).
 Definition q2_eqb (a b : Q * Q) : bool := Qeq_bool (fst a) (fst b) && Qeq_bool (snd a) (snd b).
 Definition r4_eqb (a b : r4) : bool :=
   let '(x1, y1, w1, h1) := a in let '(x2, y2, w2, h2) := b in
@@ -78,7 +91,8 @@ Definition anc_eqb (a b : anchor * (Q * Q)) : bool := anchor_eqb (fst a) (fst b)
 Definition shows_eqb (a b : shows) : bool :=
   let '(r1, t1, f1, a1, b1) := a in let '(r2, t2, f2, a2, b2) := b in
   r4_eqb r1 r2 && r4_eqb t1 t2 && Qeq_bool f1 f2 && set_eqb anc_eqb a1 a2 && set_eqb showb_eqb b1 b2.
-Definition eqb14 (a b : out14) : bool := opt_eqb (list_eqb shows_eqb) a b.
+Definition eqb14 (a b : out14) : bool :=
+  opt_eqb (list_eqb shows_eqb) (fst a) (fst b) && Bool.eqb (fst (snd a)) (fst (snd b)) && Bool.eqb (snd (snd a)) (snd (snd b)).
 """
 
 
@@ -213,14 +227,14 @@ def enc_in14(case):
 
 def enc_out14(case, r):
     if "error" in r:
-        return "None"
+        return "(None, (true, true))"
     items = []
     for s in r["layout"]:
         anchors = clist(cpair(c13.enc_anchor(a), cQ2(p)) for a, p in s["anchors"])
         brs = clist(cpair(c13.enc_anchor(d["id"]), cnat(d["kind"]), cR4(d["rect"]), cQ2(d["ap"]), cQ2(d["al"]), cQ2(d["ar"]), cQ2(d["ac"]))
                     for d in s["branches"])
         items.append(cpair(cR4(s["rect"]), cR4(s["trunk"]), cQ(s["fork"]), anchors, brs))
-    return "(Some " + clist(items) + ")"
+    return "(Some " + clist(items) + ", " + cpair(cbool(bool(r.get("mirror_same", True))), cbool(bool(r.get("twice_same", True)))) + ")"
 
 
 # ---------------------------------------------------------------------------
@@ -339,6 +353,8 @@ def extra(ctx):
                 ctx.findings.append(Finding("layout", case, r, "(oracle sweep over every generated case)", False, viol[0]))
         elif known:
             n_known += 1
+            if case.get("S") == KNOWN_ENTRY["witness"]["S"] and case.get("sol") == KNOWN_ENTRY["witness"]["sol"]:
+                continue        # the recorded witness (and its mirror image): reported by replay_known
             if not seen_known:
                 seen_known = True
                 ctx.findings.append(Finding("layout", case, {"known": known[0]}, "(oracle sweep over every generated case)", False, known[0]))
@@ -384,6 +400,9 @@ def batches(ctx):
         cases, n_small = c13.make_cases(ctx, (3, 3), n_mid=25, cap_mid=20, n_rand=150, tag="c14")
     else:
         cases, n_small = c13.make_cases(ctx, (3, 3), n_mid=300, cap_mid=40, n_rand=2500, tag="c14")
+    if getattr(ctx, "replay_case", None) is None:
+        w = KNOWN_ENTRY["witness"]
+        cases = [dict(w), dict(w, orient="H", sizes2=swap_sizes2(w["sizes2"]))] + cases      # the section-9 witness and its mirror image
     kinds = {"V": 0, "H": 0, "default_params": 0}
     for c in cases:
         kinds[c["orient"]] += 1
